@@ -109,6 +109,28 @@ def stepLine (σ : St) (line : String) : St × String :=
     | none => (σ, "bad-op")
   | _ => (σ, "bad-op")
 
+/-- `HttpLayer.streams` (model: `applyLayerOp`, `route`) next to the client: `L make|drop|route sid` -/
+structure DSt where
+  st : St
+  streams : List (Nat × HStream)
+
+def showStreams (l : List (Nat × HStream)) : String :=
+  joinOr (l.map fun p => s!"{p.1}>{p.2.id}")
+
+def stepLine2 (d : DSt) (line : String) : DSt × String :=
+  match fields line with
+  | ["reset"] => (⟨St.init, []⟩, "ok")
+  | ["L", "make", sid] => match sid.toNat? with
+    | some sid => let l := applyLayerOp d.streams (.make sid); (⟨d.st, l⟩, "S=" ++ showStreams l)
+    | none => (d, "bad-op")
+  | ["L", "drop", sid] => match sid.toNat? with
+    | some sid => let l := applyLayerOp d.streams (.drop sid); (⟨d.st, l⟩, "S=" ++ showStreams l)
+    | none => (d, "bad-op")
+  | ["L", "route", sid] => match sid.toNat? with
+    | some sid => (d, "R=" ++ (match route d.streams sid with | some s => toString s.id | none => "-"))
+    | none => (d, "bad-op")
+  | _ => let r := stepLine d.st line; (⟨r.1, d.streams⟩, r.2)
+
 end C05Driver
 
-def main : IO Unit := runState C05Driver.stepLine St.init
+def main : IO Unit := runState C05Driver.stepLine2 ⟨St.init, []⟩
